@@ -482,6 +482,13 @@ def check(ctx):
                     ok = True
                 else:
                     w = w_
+        # ... and no way out of the continuation (early return included) skips that: once the firing is over the event must not stay in the
+        # BEFORE state with the record of executed before-triggers
+        w_exit = must_pass(g, [g.entry], st_b + fb_r, exc=False)
+        ctx.check(bool(st_b + fb_r) and w_exit is None, "remove/before-state-left", q + " | <every exit>",
+                  "the continuation can return while the event is still in state 'BEFORE' with finishedBefore populated (e.g. an early return when no during/after "
+                  "trigger is registered): afterwards removing a re-registered before-trigger only warns, the trigger stays and runs at the next firing",
+                  witness=g.describe(w_exit))
         ctx.check(ok, "remove/before-state-left", q,
                   "during/after triggers run while the event still records executed before-triggers: removing a (re-added) before-trigger from them "
                   "only warns and the trigger runs again at the next firing", witness=g.describe(w) if not ok else "")
@@ -600,6 +607,9 @@ MUTANTS = [
     Mutant("late-phase-helper-pops-from-the-tail", BASE, "        for phase in self.during, self.after:\n            while phase:\n                callable, args, kwargs = phase.pop(0)\n                with _systemEventHandler:\n                    callable(*args, **kwargs)\n", "        first, then = self.during, self.after\n        self._drainPhase(first)\n        self._drainPhase(then)\n\n    def _drainPhase(self, pending):\n        while pending:\n            callable, args, kwargs = pending.pop()\n            with _systemEventHandler:\n                callable(*args, **kwargs)\n", expect_rule="order/consumed-from-head"),
     Mutant("comprehension-drops-fired-deferreds", BASE, "        beforeResults: List[Deferred[object]] = []\n        while self.before:\n            callable, args, kwargs = self.before.pop(0)\n            self.finishedBefore.append((callable, args, kwargs))\n            result = None\n            with _systemEventHandler:\n                result = callable(*args, **kwargs)\n            if isinstance(result, Deferred):\n                beforeResults.append(result)\n        DeferredList(beforeResults).addCallback(self._continueFiring)\n", "        waitFor = [outcome for outcome in self._runBeforePhase() if isinstance(outcome, Deferred) and not outcome.called]\n        DeferredList(waitFor).addCallback(self._continueFiring)\n\n    def _runBeforePhase(self):\n        while self.before:\n            callable, args, kwargs = self.before.pop(0)\n            self.finishedBefore.append((callable, args, kwargs))\n            outcome = None\n            with _systemEventHandler:\n                outcome = callable(*args, **kwargs)\n            yield outcome\n",
            expect_rule="phase/results-collected"),
+    Mutant("continuation-returns-early-before-leaving-the-BEFORE-state", BASE, "        self.state = \"BASE\"\n        self.finishedBefore = []\n        for phase",
+           "        if len(self.during) + len(self.after) == 0:\n            return None\n        self.state = \"BASE\"\n        self.finishedBefore = []\n        for phase",
+           expect_rule="remove/before-state-left"),
     Mutant("before-removal-ignored-while-firing", BASE, "        else:\n            self.removeTrigger_BASE(handle)\n\n    def fireEvent",
            "        else:\n            pass\n\n    def fireEvent", expect_rule="remove/really-removes"),
     Mutant("remover-uses-wrong-field-order", BASE, "            getattr(self, phase).remove((callable, args, kwargs))\n", "            getattr(self, phase).remove((callable, kwargs, args))\n",
